@@ -348,6 +348,7 @@ def check_c19(sc, res):
         # ---------------- every directory of the tree as a simfile directory
         all_dirs = sorted(d for d in tree.dirs if d != "/")
         dir_expect = {}
+        kept_dirs = []
         for d in all_dirs:
             sm, ssc = tree.simfiles_in(d)
             dup = len(sm) > 1 or len(ssc) > 1
@@ -406,6 +407,7 @@ def check_c19(sc, res):
                             expected=want_path)
                 return
             dir_expect[d] = ("ok", chosen, listing)
+            kept_dirs.append((d, sd, sd.sm_path, sd.ssc_path))
             # open()
             if chosen is None:
                 try:
@@ -589,6 +591,11 @@ def check_c19(sc, res):
                 res.stats["probe:pack-iterated:" + label] += 1
             if any(oc[0] == "ok" for oc, _, _ in got) and not kw_load["strict"]:
                 res.stats["probe:lenient-option-reached:" + label] += 1
+        for d, sd, smp, sscp in kept_dirs:
+            if sd.sm_path != smp or sd.ssc_path != sscp:
+                res.violate(P, "directory-object-changed-later", dir=d, before=[smp, sscp],
+                            after=[sd.sm_path, sd.ssc_path])
+                return
         res.note("pack", facade, cfg.get("listing"), len(want_dirs), ign, kw_load["strict"],
                  cfg.get("encoding"), spelling, has_dup)
     res.steps += len(disk.events) + len(disk.listings)
@@ -614,6 +621,7 @@ def check_c20(sc, res):
         def npath(p):
             return norm(fa.unroot(fa.normpath(p)))
 
+        kept = []
         for d in sorted(x for x in tree.dirs if x.startswith(pack + "/") and
                         x.count("/") == pack.count("/") + 1):
             sm, ssc = tree.simfiles_in(d)
@@ -644,6 +652,8 @@ def check_c20(sc, res):
                 return
             res.evaluations += 1
             entries = tree.entries(d)
+            first_answers = {}
+            kept.append((d, assets, first_answers))
             for kind in ASSET_KINDS:
                 attr = ATTR_OF[kind]
                 specified = exp.get(kind) if exp.has(kind) else None
@@ -677,6 +687,7 @@ def check_c20(sc, res):
                     res.violate(P, "asking-again-gives-another-answer", dir=d, asset=kind,
                                 first=a1, second=a2)
                     return
+                first_answers[kind] = a1
                 if a1 is None:
                     if admissible:
                         res.violate(P, "asset-not-found", dir=d, asset=kind, specified=specified,
@@ -707,6 +718,21 @@ def check_c20(sc, res):
                 res.note("asset", facade, kind, why, a1 is None, len(admissible), via,
                          cfg.get("listing"), spelling, bool(specified) and "/" in (specified or ""),
                          shash(tuple(sorted(e.lower() for e in entries))) & 0xffff)
+        # asking again after every other directory has been looked at (objects of
+        # different directories alive at the same time must not influence each other)
+        for d, assets, first_answers in kept:
+            for kind, a1 in first_answers.items():
+                try:
+                    a3 = getattr(assets, ATTR_OF[kind])
+                except Exception as e:
+                    res.violate(P, "asset-lookup-raised", dir=d, asset=kind, exc=repr(e), late=True)
+                    return
+                if a3 != a1:
+                    res.violate(P, "asking-again-gives-another-answer", dir=d, asset=kind,
+                                first=a1, second=a3, late=True)
+                    return
+        if len(kept) > 1:
+            res.stats["probe:several-asset-objects-alive"] += 1
         # ---------------- pack banner
         parg = fa.p(_spell(pack, spelling))
         try:
